@@ -1,5 +1,4 @@
-import PsyVerif.Model.MiniFIO
-import PsyVerif.Model.RegionData
+import PsyVerif.Model.RegionDataIO
 open Proto MiniF RegionData
 
 def sortNat (l : List Nat) : List Nat := (l.toArray.qsort (· < ·)).toList
@@ -12,29 +11,38 @@ def b01 (b : Bool) : String := if b then "1" else "0"
 @[noinline] def perturb (σ : Store) (P : List Nat) (delta : Int) : Store :=
   ⟨fun l => if P.contains l.1 then σ l + delta + 31 * (l.1 : Int) + 3 * l.2.1 + 7 * l.2.2 else σ l⟩
 
-@[noinline] def replay (σ : Store) (region : Stmt) (P : List Nat) (delta : Int) (qs : List Loc) : String :=
+@[noinline] def replay (σ : Store) (region : RStmt) (P : List Nat) (delta : Int) (qs : List Loc) : String :=
   let τ := perturb σ P delta
-  "(" ++ answer σ qs ++ " " ++ answer (exec region σ) qs ++ " " ++ answer (exec region τ) qs ++ ")"
+  "(" ++ answer σ qs ++ " " ++ answer (rexec driverFuel region σ) qs ++ " " ++ answer (rexec driverFuel region τ) qs ++ ")"
 
 /-- `(inout <stmt>)` → `((inputs) (outputs) WholeFirstWrites OutputsDefined)`;
 `(replay <prefix> <region> (<perturbed vars>) <delta> (<queries>))` → values at the queries
 before the region, after it, and after it when started from the perturbed store;
+`(extract (<items>))` → `(accept|refuse (inputs) (outputs))` (ExtractTrans decision, and the plain
+get_in_out_parameters lists where CodeBlock items contribute nothing);
 `(calls (<non-local vars>) (<callee body> ...))` → `((inputsCalls) (outputsCalls))`. -/
 def handle (s : Sexp) : String :=
   match s with
   | .list [.atom "inout", p] =>
-    match parseStmt p with
+    match parseRStmt p with
     | none => "bad-stmt"
     | some st =>
       "(" ++ showNats (inputs st) ++ " " ++ showNats (outputs st) ++ " "
         ++ b01 (decide (WholeFirstWrites st)) ++ " " ++ b01 (outDefined st) ++ ")"
   | .list [.atom "replay", pre, reg, pv, d, qs] =>
-    match parseStmt pre, parseStmt reg, d.int? with
+    match parseRStmt pre, parseRStmt reg, d.int? with
     | some pr, some rg, some delta =>
-      replay (exec pr (storeOf [])) rg pv.natList delta (qs.items.filterMap parseLoc)
+      replay (rexec driverFuel pr (storeOf [])) rg pv.natList delta (qs.items.filterMap parseLoc)
     | _, _, _ => "bad-stmt"
+  | .list [.atom "extract", its] =>
+    match its.items.mapM parseItem with
+    | none => "bad-stmt"
+    | some items =>
+      let io := inOutItems items
+      "(" ++ (match extractTrans items with | none => "refuse" | some _ => "accept") ++ " "
+        ++ showNats io.1 ++ " " ++ showNats io.2 ++ ")"
   | .list [.atom "calls", g, bodies] =>
-    match bodies.items.mapM parseStmt with
+    match bodies.items.mapM parseRStmt with
     | none => "bad-stmt"
     | some bs => "(" ++ showNats (inputsCalls g.natList bs) ++ " " ++ showNats (outputsCalls g.natList bs) ++ ")"
   | _ => "bad-op"
